@@ -81,6 +81,11 @@ Theorem C14_rule_names_from_g4 :
 Proof. exact rule_names_from_g4. Qed.
 Print Assumptions C14_rule_names_from_g4.
 
+(* the decision numbers used by the generated Python parser code are those of its embedded automaton *)
+Theorem C14_predict_sites_ok : forallb predict_site_ok py_predict_sites = true.
+Proof. exact predict_sites_ok. Qed.
+Print Assumptions C14_predict_sites_ok.
+
 (* non-vacuity: the lexer does answer, e.g. on "pi**2j" (PI, PWR, COMPLEX: longest match) *)
 Example C14_lex_example :
   lex_raw lex_g lex_rules [112;105;42;42;50;106]%N 64 64 = Some [(14, 0, 2); (4, 2, 4); (10, 4, 6)].
